@@ -118,6 +118,70 @@ def a5():
     })
 
 
+def a5_seek():
+    init, tab = a5()
+    return (init, dict((st, dict(list(row.items()) + [("seek", st)])) for st, row in tab.items()))
+
+
+NEXT_CLASSES = (("Crypto.Cipher._mode_gcm", "GcmMode", AEAD_METHODS), ("Crypto.Cipher._mode_eax", "EaxMode", AEAD_METHODS),
+                ("Crypto.Cipher.ChaCha20_Poly1305", "ChaCha20Poly1305Cipher", AEAD_METHODS),
+                ("Crypto.Cipher._mode_ccm", "CcmMode", AEAD_METHODS), ("Crypto.Cipher._mode_ocb", "OcbMode", OCB_METHODS),
+                ("Crypto.Cipher._mode_siv", "SivMode", AEAD_METHODS), ("Crypto.Cipher._mode_cbc", "CbcMode", CLASSIC_METHODS),
+                ("Crypto.Cipher._mode_cfb", "CfbMode", CLASSIC_METHODS), ("Crypto.Cipher._mode_ofb", "OfbMode", CLASSIC_METHODS),
+                ("Crypto.Cipher._mode_ctr", "CtrMode", CLASSIC_METHODS), ("Crypto.Cipher.ChaCha20", "ChaCha20Cipher", CLASSIC_METHODS))
+
+
+def state_variable_writers(check, repo):
+    """`_next` is written only by __init__ and by the methods of the transition table (whose every successor is compared
+    with the diagram above): a helper, seek(), copy() or a property setter that re-arms it would unlock forbidden calls."""
+    import ast
+    seen = 0
+    for modname, clsname, methods in NEXT_CLASSES:
+        mod = repo.module(modname)
+        cnode = repo.cls(mod, clsname)
+        table = set(m[1] for m in methods) | set(["__init__"])
+        # methods the table's methods delegate to count as part of them only if the interpreter followed them, which it
+        # does for calls on self; so a writer outside the table is reported unless a table method calls it
+        called = set()
+        writers = []
+        for m, c in repo.mro(mod, cnode):
+            for fn in getattr(c, "body", []):
+                if not isinstance(fn, (ast.FunctionDef, ast.AsyncFunctionDef)):
+                    continue
+                seen += 1
+                for n in ast.walk(fn):
+                    tg = []
+                    if isinstance(n, ast.Assign):
+                        tg = n.targets
+                    elif isinstance(n, (ast.AugAssign, ast.AnnAssign)):
+                        tg = [n.target]
+                    elif isinstance(n, ast.Delete):
+                        tg = n.targets
+                    elif isinstance(n, ast.Call) and isinstance(n.func, ast.Name) and n.func.id in ("setattr", "delattr") \
+                            and len(n.args) >= 2 and isinstance(n.args[1], ast.Constant) and n.args[1].value == "_next":
+                        writers.append((fn, m, n.lineno))
+                    elif isinstance(n, ast.Call) and isinstance(n.func, ast.Attribute) and isinstance(n.func.value, ast.Name) \
+                            and n.func.value.id == "self" and fn.name in table:
+                        called.add(n.func.attr)
+                    flat = []
+                    for t in tg:
+                        flat.extend(t.elts if isinstance(t, (ast.Tuple, ast.List)) else [t])
+                    for t in flat:
+                        base = t.value if isinstance(t, ast.Subscript) else t
+                        if isinstance(base, ast.Attribute) and base.attr == "_next":
+                            writers.append((fn, m, n.lineno))
+        bad = [(fn, m, ln) for fn, m, ln in writers if fn.name not in table and fn.name not in called]
+        check.ob("T", "T|%s.%s|state-variable-writers" % (modname.split(".")[-1], clsname), not bad, mod.path,
+                 bad[0][2] if bad else cnode.lineno,
+                 extracted=("%s writes self._next" % ", ".join(sorted(set("%s() line %d" % (fn.name, ln) for fn, m, ln in bad))))
+                 if bad else "written only in %s" % ", ".join(sorted(set(fn.name for fn, m, ln in writers))),
+                 expected="self._next is written only by __init__ and the methods of the documented diagram "
+                          "(%s), whose successors are compared with it" % ", ".join(sorted(table)))
+    if seen < 60:
+        from ..core import AnalysisError
+        raise AnalysisError("state-variable rule saw only %d methods" % seen)
+
+
 def run(check, ctx):
     repo = ctx.repo
     compare(check, repo, "Crypto.Cipher._mode_gcm", "GcmMode", AEAD_METHODS, {}, a1(), "C10")
@@ -142,6 +206,11 @@ def run(check, ctx):
                  ("Crypto.Cipher._mode_ctr", "CtrMode"),
                  ("Crypto.Cipher.ChaCha20", "ChaCha20Cipher")):
         compare(check, repo, m, c, CLASSIC_METHODS, {}, a5(), "C10")
+    # seek() repositions the key stream, it is not part of the diagram: it leaves the direction where it was
+    compare(check, repo, "Crypto.Cipher.ChaCha20", "ChaCha20Cipher",
+            CLASSIC_METHODS + [("seek", "seek", {"position": 64})], {}, a5_seek(), "C10", cfg_label="with seek")
+    # no method outside the documented diagram touches the state variable (all eleven classes)
+    state_variable_writers(check, repo)
     check.floor("T", 150)
     # CCM: the declared lengths bound the *cumulative* input over all calls (assoc_len over update(), msg_len over encrypt/decrypt)
     CCM = "Crypto.Cipher._mode_ccm"
